@@ -28,7 +28,7 @@ def obligations(tier):
         for via in B:
             for u in B:
                 L.append(ob("embedded/%s/map=%d/utf8=%d" % (t.replace('"', ''), via, u), ".", "VerifC02Embedded", [t, via, u], covers=["success"], max_seconds=600))
-    for t in ['{"?":1}'] if q else ['{"?":1}', '{"?":1,"?":2}', '{"\\u004?":1}']:
+    for t in ['{"?":1}', '{"?":1,"?":2}'] if q else ['{"?":1}', '{"?":1,"?":2}', '{"\\u004?":1}']:
         for via in B:
             L.append(ob("embedded2/%s/map=%d" % (t.replace('"', ''), via), ".", "VerifC02Embedded2", [t, via], covers=["success", "error"], max_seconds=600))
     # composite / pointer / interface values and key functions in object-name position
